@@ -5,6 +5,6 @@ cd "$(dirname "$0")" || exit 2
 unset GOTOOLCHAIN GOSUMDB
 export GOFLAGS=-mod=mod GOPROXY=off
 mkdir -p bin evidence replays
-go build -o bin/ ./cmd/vcheck ./instr || exit 2
+{ go build -o bin/vcheck ./cmd/vcheck && go build -o bin/vinstr ./instr; } || exit 2
 ./bin/vcheck passthrough || exit 2
 ./bin/vcheck warm || exit 2
